@@ -698,6 +698,9 @@ class Rig:
             try:
                 if use_stub:
                     if item.behav == "r":
+                        if item.vid % 3 == 0:      # an exception that cannot even be turned into text
+                            from rv.faults import Unprintable
+                            raise Unprintable("stub digester failure vid=%d" % item.vid)
                         raise StubFailure("stub digester failure vid=%d" % item.vid)
                     res = {"recycled_%d" % item.vid: item.vid} if item.behav == "d" else {}
                 else:
@@ -746,6 +749,9 @@ class Rig:
         if item.toxic_cb > 1:
             self.problem("toxic-callback-repeated", "sensitive item %d reached the toxic callback %d times" % (item.vid, item.toxic_cb))
         if item.behav == "r":
+            if item.vid % 3 == 1:
+                from rv.faults import Unprintable
+                raise Unprintable("on_toxic failure vid=%d" % item.vid)
             raise StubFailure("on_toxic failure vid=%d" % item.vid)
 
     # ------------------------------------------------------------------ workload
